@@ -378,6 +378,9 @@ fn probe_get_changes(w: &mut World, rep: &mut Report, r: usize, rng: &mut Rng) {
     let want: BTreeSet<ChangeHash> = applied.iter().filter(|h| !anc.contains(h)).copied().collect();
     let got: BTreeSet<ChangeHash> = res.iter().map(|c| c.hash()).collect();
     let ok_chain = chain_ok(&w.known, &applied);
+    if !ok_chain {
+        rep.fail(&["C04", "C10"], "meta|actor-chain-broken", "the applied changes of one actor do not form a chain under the ancestor relation (a change does not descend from its actor's previous change)", json!({"log": w.log}));
+    }
     if got.len() != res.len() {
         rep.fail(&["C10"], "meta|get_changes|duplicate", "get_changes returned a change twice", json!({"log": w.log}));
     }
@@ -756,12 +759,14 @@ fn build_world(rng: &mut Rng, steps: usize, rep: &mut Report, w: &mut World) {
     }
 }
 
-/// The directed scenario behind the finding recorded for C10: a change, an empty change and a
-/// transaction isolated at the first change, all by one actor.
+/// Regression probe for the defect repaired by fd4a60d8b (isolate_actor accepted an actor whose
+/// latest change was an EMPTY change outside the isolation heads): a change, an empty change and a
+/// transaction isolated at the first change, all by one actor.  The isolated change must be written
+/// by the concurrency-level actor with seq 1, and get_changes([A3]) must return A2.
 fn scenario_empty_then_isolated(rep: &mut Report) {
     let r = guard(|| {
         let a = ActorId::from(vec![1u8, 1]);
-        let mut d = AutoCommit::new().with_actor(a);
+        let mut d = AutoCommit::new().with_actor(a.clone());
         d.put(ROOT, "k", 1).unwrap();
         let a1 = d.commit().unwrap();
         let a2 = d.empty_change(CommitOptions::default());
@@ -771,19 +776,23 @@ fn scenario_empty_then_isolated(rep: &mut Report) {
         d.integrate();
         let c3 = d.get_change_by_hash(&a3).unwrap();
         let got: Vec<ChangeHash> = d.get_changes(&[a3]).iter().map(|c| c.hash()).collect();
-        (a1, a2, a3, c3.seq(), c3.deps().to_vec(), got)
+        (a, a1, a2, c3.actor_id().clone(), c3.seq(), c3.deps().to_vec(), got)
     });
     match r {
-        Ok((a1, a2, _a3, seq3, deps3, got)) => {
+        Ok((a, a1, a2, actor3, seq3, deps3, got)) => {
             rep.count("directed_scenarios");
-            // a2 is not an ancestor of a3 (a3 depends on a1 only), so get_changes([a3]) must return it
-            if deps3 == vec![a1] && seq3 == 3 && !got.contains(&a2) {
-                rep.fail(&["C10"], "meta|get_changes|actor-chain-broken|set-mismatch",
-                    "put; commit (A1); empty_change (A2); isolate([A1]); put; commit gives A3 with seq 3 and deps [A1] (isolate_actor accepts the actor: the empty change has no op of its own), and get_changes([A3]) omits A2 although A2 is not an ancestor of A3",
+            if actor3 == a || seq3 != 1 || deps3 != vec![a1] {
+                rep.fail(&["C04", "C10"], "meta|regression|empty-then-isolated|actor",
+                    &format!("put; commit (A1); empty_change (A2); isolate([A1]); put; commit: the isolated change has seq {} and is written by {} (expected: the concurrency-level actor, seq 1, deps [A1]) - the actor's changes no longer form a chain", seq3, if actor3 == a { "the document's actor" } else { "another actor" }),
+                    json!({"scenario": "empty-then-isolated"}));
+            }
+            if got != vec![a2] {
+                rep.fail(&["C10"], "meta|regression|empty-then-isolated|get_changes",
+                    "put; commit (A1); empty_change (A2); isolate([A1]); put; commit (A3): get_changes([A3]) is not [A2]",
                     json!({"scenario": "empty-then-isolated", "get_changes": got.iter().map(|h| hex(&h.0)).collect::<Vec<_>>(), "a2": hex(&a2.0)}));
             }
         }
-        Err(p) => rep.fail(&["C37"], &format!("panic|scenario|{}", p.signature()), &p.message, json!({"scenario": "empty-then-isolated"})),
+        Err(p) => rep.fail(&["C37", "C29"], &format!("panic|scenario|{}", p.signature()), &p.message, json!({"scenario": "empty-then-isolated"})),
     }
 }
 
@@ -848,7 +857,7 @@ pub fn run(rng: &mut Rng, tier: &str, out: &str) -> Report {
                 continue;
             }
             // a panic of an editing / merge / apply call is not a statement about C04 or C10
-            rep.fail(&["C37", "C05"], &format!("panic|history|{}", p.signature()),
+            rep.fail(&["C37", "C29"], &format!("panic|history|{}", p.signature()),
                 &format!("a public call panicked while generating a history: {} at {}", p.message, p.location),
                 json!({"log": w.log, "in_flight": w.doing, "universe": ui}));
             continue;
